@@ -42,6 +42,11 @@ KEY = {
     "CountBy": ["indexmap::map::IndexMap::<K, V, S>::entry", "::or_insert"],
     "Includes": [CORE + "values::Value::equals", "core::str::<impl str>::contains"],
 }
+# documented argument counts (docs + built-in table at the pinned tree; read against each arm's use of args[..])
+ARITY = {'Sort': ('Exact', 1, 1), 'SortBy': ('Exact', 2, 2), 'Unique': ('Exact', 1, 1), 'Reverse': ('Exact', 1, 1), 'Concat': ('AtLeast', 2, None), 'Flatten': ('Exact', 1, 1),
+         'Zip': ('AtLeast', 2, None), 'Chunk': ('Exact', 2, 2), 'Slice': ('Exact', 3, 3), 'Head': ('Exact', 1, 1), 'Tail': ('Exact', 1, 1), 'Range': ('Between', 1, 2), 'Keys': ('Exact', 1, 1),
+         'Values': ('Exact', 1, 1), 'Entries': ('Exact', 1, 1), 'GroupBy': ('Exact', 2, 2), 'CountBy': ('Exact', 2, 2), 'Join': ('Exact', 2, 2), 'Split': ('Exact', 2, 2), 'Len': ('Exact', 1, 1),
+         'Includes': ('Exact', 2, 2), 'Any': ('Exact', 1, 1), 'All': ('Exact', 1, 1), 'Dot': ('Exact', 2, 2), 'Replace': ('Exact', 3, 3), 'Trim': ('Exact', 1, 1), 'Uppercase': ('Exact', 1, 1), 'Lowercase': ('Exact', 1, 1)}
 FORBIDDEN = re.compile(r"sort_unstable|::split_terminator|::rsplit|::splitn|::split_inclusive|::split_whitespace|::dedup")
 # per built-in: routines that look like the key primitive but decide something else (each is a definite finding in that arm)
 LOOKALIKE = {
@@ -49,8 +54,12 @@ LOOKALIKE = {
     "Unique": re.compile(r"hash::set::HashSet|btree::set::BTreeSet|Value::stringify|as core::cmp::PartialEq>::(eq|ne)$|as core::hash::Hash>::hash"),
     "Includes": re.compile(r"hash::set::HashSet|Value::stringify|blots_core::values::Value as core::cmp::PartialEq>::(eq|ne)$"),
     # the order of equal elements is the input order: the comparator compares the keys and nothing else
-    "Sort": re.compile(r"cmp::Ordering::then(_with)?$|::sort_by_key|::sort_by_cached_key|slice::<impl \[T\]>::sort$|::reverse$"),
-    "SortBy": re.compile(r"cmp::Ordering::then(_with)?$|::sort_by_key|::sort_by_cached_key|slice::<impl \[T\]>::sort$"),
+    # ... and the order of the keys is Value::compare's (0 and -0 compare equal, so they stay in input order): no second ordering of numbers
+    "Sort": re.compile(r"cmp::Ordering::then(_with)?$|::sort_by_key|::sort_by_cached_key|slice::<impl \[T\]>::sort$|::reverse$|::total_cmp$|f64 as core::cmp::PartialOrd>::partial_cmp$"),
+    "SortBy": re.compile(r"cmp::Ordering::then(_with)?$|::sort_by_key|::sort_by_cached_key|slice::<impl \[T\]>::sort$|::total_cmp$|f64 as core::cmp::PartialOrd>::partial_cmp$"),
+    # the first character is one character; the rest is everything after it: a pattern-stripping routine removes every leading repeat
+    "Head": re.compile(r"::trim_(start_|end_|left_|right_)?matches$|::strip_(prefix|suffix)$"),
+    "Tail": re.compile(r"::trim_(start_|end_|left_|right_)?matches$|::strip_(prefix|suffix)$|::trim_start$|::trim$"),
     "GroupBy": re.compile(r"hash::map::HashMap|btree::map::BTreeMap"),
     "CountBy": re.compile(r"hash::map::HashMap|btree::map::BTreeMap"),
     "Keys": re.compile(r"::sort|hash::map::HashMap"),
@@ -287,6 +296,19 @@ def run(ctx):
                             n_b += 1
                             ctx.inst("C14.R4", "%s#bound-equal-to-length-refused" % "|".join(names_), False, "an index equal to the length is refused (%s): slice(l, len(l), len(l)) is the empty list, and slice(l,0,k) ++ slice(l,k,n) == l needs it at k = n" % H.loc(c_), H.loc(n_))
     ctx.inst("C14.R4", "bound-equal-to-length#none", n_b == 0, "hand-written bounds tests in slice / head / tail / chunk that refuse an index equal to the length: %d" % n_b, None)
+    # ---------------- R8 how many arguments each of these built-ins takes
+    ctx.rule("C14.R8", "the arity table gives each list/string/record built-in the argument counts it is documented with (zip and concat take two or more lists, range one or two numbers, slice three, ...): a narrower row refuses calls the documentation shows, a wider one reaches an arm that indexes arguments that are not there", floor=25)
+    from rules import c01 as c01__
+    try:
+        ar_ = c01__.arity_table(core)
+    except Exception as ex_:
+        ar_ = None
+        ctx.inst("C14.R8", "arity-table", None, "FunctionArity table not recognised: %s" % ex_, None)
+    for v_, want in sorted(ARITY.items()):
+        if ar_ is None:
+            break
+        got = ar_.get(v_)
+        ctx.inst("C14.R8", "arity[%s]" % v_, None if got is None else tuple(got) == want, "arity row: %s; documented: %s" % (got, want), None)
     # key functions: called with the element alone, and as themselves
     ctx.rule("C14.R7", "sort_by, group_by and count_by call their key function with the element alone (no index), and hand the function value itself as its self reference at every call (both key evaluations of a sort_by comparison): the key of x is f(x), whatever f's arity and whether or not f is recursive", floor=4)
     from rules import c13 as c13_
